@@ -594,9 +594,24 @@ fn run_actions_std(c: &FwCase) -> Option<Vec<String>> {
 
 /// `o DET ok|fail`: the same inputs give the same actions (second instance, and a clone taken mid-history).
 pub fn det_line(c: &FwCase, p: &mut Prng) -> String {
+    // the variants run the implementation again (and scripts on spare instances): supervised like the main
+    // run, so that an endless loop in one of them is a result and not a stuck check
+    let at = if c.calls.is_empty() { None } else { Some(p.below(c.calls.len() as u64) as usize) };
+    let (tx, rx) = std::sync::mpsc::channel::<String>();
+    let c2 = c.clone();
+    let _ = std::thread::Builder::new().stack_size(64 << 20).spawn(move || {
+        let _ = tx.send(det_line_inner(&c2, at));
+    });
+    match rx.recv_timeout(std::time::Duration::from_secs(4 * CALL_WATCHDOG_SECS)) {
+        Ok(s) => s,
+        Err(std::sync::mpsc::RecvTimeoutError::Timeout) => format!("det fail clone_at={:?} a second instance or a copy of the framework did not return (hang) copy-panicked\n", at),
+        Err(std::sync::mpsc::RecvTimeoutError::Disconnected) => "det ok\n".into(),
+    }
+}
+
+fn det_line_inner(c: &FwCase, at: Option<usize>) -> String {
     let a = run_actions_only(c, None);
     let b = run_actions_only(c, None);
-    let at = if c.calls.is_empty() { None } else { Some(p.below(c.calls.len() as u64) as usize) };
     let d = run_actions_only(c, at);
     let e = run_actions_copy(c, at, CopyHow::FromFresh);
     let g = run_actions_copy(c, at, CopyHow::FromUsed);
